@@ -308,6 +308,41 @@ def run(ctx):
         per_variant[v] = nok
         ctx.cov["traces_validated_against_impl"] += nok
     ctx.notes["agreeing_decodes_per_variant"] = per_variant
+    # (u) round 2, unit level: the decoder's own table builders against the tables the independent writer computes from the specification:
+    #     ZSTD_buildFSETable (every cell: next state base, extra bits, state bits, base value) on random normalised distributions up to the
+    #     maximum accuracy logs incl. all-'less than 1' ones; FSE_readNCount on canonical and non-canonical descriptions; HUF_readDTableX1 /
+    #     HUF_readDTableX2 (every cell: symbol(s), bits) on complete trees of 2..256 symbols, depth up to 11, direct / FSE-compressed weights
+    ucases = c04_gen.unit_table_cases(rng, 120 if ctx.quick else 1500, 60 if ctx.quick else 600)
+    nunit = 0
+    for uv in (["o1"] if ctx.quick else ["o1", "noasm", "nobmi2"]):
+        uexe = core.build_harness("c04_tables", ["c04_tables.c"], variant=uv, lib_exclude=["zstd_decompress_block.c"], extra_flags=["-w"])
+        ulines, umeta = [], {}
+        for k, c in enumerate(ucases):
+            if c[0] == "F":
+                ulines.append("F u%d %s %d %s" % (k, c[1], c[2], ",".join(str(q) for q in c[3])))
+                umeta["u%d" % k] = (c, False)
+            elif c[0] == "N":
+                ulines.append("N u%d %d %s" % (k, c[1], c[2].hex()))
+                umeta["u%d" % k] = (c, False)
+            else:
+                ulines.append("H u%dx1 1 %s" % (k, c[1].hex()))
+                ulines.append("H u%dx2 2 %s" % (k, c[1].hex()))
+                umeta["u%dx1" % k] = (c, False)
+                umeta["u%dx2" % k] = (c, True)
+        uout, uerrs = codec._run_chunks(uexe, ulines, core.NCPU, 600)
+        if uerrs:
+            ctx.violation(dict(kind="harness-crash", variant=uv, detail=uerrs[:2]), what="c04_tables (%s build) crashed: %r" % (uv, uerrs[0]))
+        for key, (c, x2) in umeta.items():
+            diff = c04_gen.unit_table_check(c, uout.get(key, "ERR missing"), x2)
+            if diff:
+                ctx.violation(dict(kind="unit-table", variant=uv, case=[c[0]] + [q.hex() if isinstance(q, bytes) else (sorted(q.items()) if isinstance(q, dict) else q) for q in c[1:4]], x2=x2, diff=diff),
+                              what="table builder of libzstd build '%s' differs from the specified table (%s%s): %s" % (
+                                  uv, {"F": "ZSTD_buildFSETable", "N": "FSE_readNCount", "H": "HUF_readDTable"}[c[0]], "X2" if x2 else "", diff))
+            else:
+                nunit += 1
+                ctx.count(("unit", c[0], x2, uv, c[2] if c[0] == "F" else len(c[2]) if c[0] == "N" else len(c[1])), nontrivial=True)
+    ctx.notes["unit_table_cases_agreeing"] = nunit
+    ctx.cov["traces_validated_against_impl"] += nunit
     for i, name, f, y, sig in valid[:3]:
         ctx.sample(dict(source=name, frame_hex=f.hex()[:300], content_len=len(y)))
     ctx.proof_verdict(None)
